@@ -133,5 +133,33 @@ def check(prop, tier, seed, replay=None):
                 rep.violation(dict(kind={'segv': 'element-storage-touched-while-protected', 'ub': 'undefined-behaviour-in-view-operation'}.get(c.impl, 'server-died'), impl=c.impl, config=cfg, **c.pub())); continue
             ok = walk(c, rep, prop, cfg)
             if ok and len(c.ext) >= 2: rep.sample(dict(line=c.line()[:400], output=c.impl[:300]), cap=4)
+    if prop == 'C13' and not replay:
+        # the C++14 fold emulations behind size() / empty(): the C++14-only server under UBSan; extents with a zero whose
+        # other extents multiply beyond the (signed) index type - the product is 0 and must be formed in size_type
+        import random
+        from . import checks_c15 as K15
+        rnd = random.Random(seed + 13); lines = K15.c14_lines(rnd, 150 if tier == 'quick' else 1500)
+        for t in ('i32', 'i64', 'i16'):
+            H = C.hi(t); b = int(H ** 0.5) + rnd.randint(2, 50)
+            for _ in range(6):
+                b1, b2 = b + rnd.randint(0, 9), b + rnd.randint(0, 9)
+                lines.append('v14 right %s pat=D,D,D ext=%d,%d,0 obs' % (t, b1, b2)); lines.append('v14 left %s pat=D,D,D ext=0,%d,%d obs' % (t, b1, b2))
+                lines.append('v14 right %s pat=D,D ext=%d,0 obs' % (t, H)); lines.append('v14 left %s pat=D,D ext=0,%d obs' % (t, H))
+        m14 = [V.canon(x) for x in C.driver(lines)]
+        for cfg in (['gcc14-ubsan'] if tier == 'quick' else ['gcc14-ubsan', 'clang14-ubsan', 'gcc14-O0-assert-emul']):
+            try: exe, secs, cached = C.cxx_build('c14srv', [C.os.path.join(C.HARNESS, 'c14srv.cpp')], config=cfg)
+            except C.BuildError as e:
+                rep.broke(dict(correspondence='C++14 server build (%s)' % cfg, why=str(e), log=e.log[-2000:])); continue
+            out = [V.canon(x) for x in C.pipe(exe, lines)]
+            for l, xi, xm in zip(lines, out, m14):
+                rep.cov['evaluations'] += 1
+                if not l.startswith('v14'): continue
+                if xm == 'ub': continue
+                if xi != xm:
+                    es = [int(x) for x in dict(t.split('=') for t in l.split() if '=' in t)['ext'].split(',')] if ' ext=-' not in l else []
+                    rep.violation(dict(kind='C++14: size()/empty()/observers of mdspan differ from the extents (fold emulation)' if xi != 'ub' else 'C++14: undefined behaviour in mdspan::size()/empty() for a valid mapping',
+                                       line=l, impl=xi, specified='sz=%d emp=%d ...' % (C.prod(es), 1 if (es and 0 in es) else 0), model=xm, config=cfg)); continue
+                rep.nontrivial(l)
+        rep.notes['cxx14_lines'] = len(lines)
     rep.assumptions = ['references and pointers are modelled as addresses (offsets from the buffer base)', 'outer compressed-pair specialisations with an empty data handle are not instantiated']
     return rep.finish(audit)
